@@ -6,6 +6,7 @@ package fakestomp
 
 import (
 	"errors"
+	"fmt"
 	"strings"
 
 	"verif/engine/vsched"
@@ -41,6 +42,14 @@ func (sendOpt) Header(k, v string) func(*Frame) error {
 	}
 }
 
+type subscribeOpt struct{}
+
+// SubscribeOpt mirrors stomp.SubscribeOpt (Id, Header).
+var SubscribeOpt subscribeOpt
+
+func (subscribeOpt) Id(id string) func(*Frame) error { return SendOpt.Header("id", id) }
+func (subscribeOpt) Header(k, v string) func(*Frame) error { return SendOpt.Header(k, v) }
+
 type Message struct {
 	Destination  string
 	ContentType  string
@@ -67,6 +76,7 @@ type Conn struct {
 	seq    int
 	closed bool
 	rr     int
+	nsub   int
 	OnSend func(dest string, body []byte) error
 	// FailAcks makes every Ack fail (a broker that rejects acknowledgements, e.g. for a
 	// subscription in auto-ack mode).
@@ -79,6 +89,7 @@ type Subscription struct {
 	conn        *Conn
 	active      bool
 	ack         AckMode
+	id          string
 }
 
 func NewConn() *Conn { return &Conn{obj: vsched.NewObj("stompconn")} }
@@ -89,7 +100,36 @@ func (c *Conn) Subscribe(dest string, ack AckMode, opts ...func(*Frame) error) (
 	if c.closed {
 		return nil, ErrClosedUnexpectedly
 	}
-	s := &Subscription{C: make(chan *Message, 16), destination: dest, conn: c, active: true, ack: ack}
+	f := &Frame{}
+	for _, o := range opts {
+		if o != nil {
+			if err := o(f); err != nil {
+				return nil, err
+			}
+		}
+	}
+	c.nsub++
+	s := &Subscription{C: make(chan *Message, 16), destination: dest, conn: c, active: true, ack: ack, id: fmt.Sprintf("sub-%d", c.nsub)}
+	if id, ok := f.Header["id"]; ok {
+		s.id = id
+	}
+	for _, o := range c.subs {
+		if o.active && o.id == s.id {
+			// a second SUBSCRIBE with an id in use: the broker answers with an ERROR frame and closes
+			// the connection; every subscription's channel gets the error and is closed. Subscribe
+			// itself has already returned by then (it does not wait for a receipt).
+			c.subs = append(c.subs, s)
+			c.closed = true
+			for _, x := range c.subs {
+				if x.active {
+					x.active = false
+					vsched.SendNow(x.C, &Message{Err: errors.New("subscription already exists"), Conn: c, Subscription: x})
+					vsched.CloseNow(x.C, 0x0c105e)
+				}
+			}
+			return s, nil
+		}
+	}
 	c.subs = append(c.subs, s)
 	return s, nil
 }
